@@ -267,6 +267,21 @@ class Program:
         self.edges()
         return self._by_callee.get(d, [])
 
+    def arena_drop_walker(self):
+        """The destructor that releases every object when the collector context is dropped (`DropAll` today): found
+        by shape, not by path - a local `Drop::drop` other than the block builder's that calls GcPtr::dealloc and is
+        reachable from `<Context as Drop>::drop` (it may be nested in that function or live at module level)."""
+        if getattr(self, "_walker", None) is not None:
+            return self._walker
+        self.edges()
+        ctx_drop = "<context::Context as core::ops::drop::Drop>::drop"
+        reach = self.reachable_from([ctx_drop]) if ctx_drop in self.seed_n else {}
+        cands = sorted({e.caller for e in self.callers_of("gc_ptr::GcPtr::dealloc")
+                        if e.caller.endswith("as core::ops::drop::Drop>::drop") and not e.caller.startswith("<gc::GcBuilder ")
+                        and (e.caller in reach or e.caller == ctx_drop)})
+        self._walker = cands[0] if len(cands) == 1 else "<<context::Context as core::ops::drop::Drop>::drop::DropAll as core::ops::drop::Drop>::drop"
+        return self._walker
+
     def collector_trace_impl(self):
         """The collector's own `impl Trace` (what user Collect impls call into): the implementor is the context
         itself or a reference to it. Returns {"trace_gc": def, "trace_gc_weak": def, "by_ref": bool} or None."""
@@ -373,8 +388,12 @@ def _local_defs(b):
 
 
 def _trace_closure(b, defs, op, depth=0):
+    """The closure - or named function - whose address flows into operand `op` (through moves, fn-pointer casts and
+    Some(..))."""
     if depth > 8:
         return None
+    if op.get("k") == "const" and op.get("fn") and op["fn"].get("local"):
+        return op["fn"]["def"]
     if op.get("k") in ("copy", "move") and not op["p"]["p"]:
         for kind, d in defs.get(op["p"]["l"], []):
             if kind != "rv":
